@@ -20,6 +20,14 @@ STRENGTHENED = {
     "C13-r2": "lease ground truth for served calls, leadership lost while the store's stop is slow",
     "C16-r2": "accepted objects applied as UPDATES of other accepted objects (pairs), serving material of a second key pair",
     "C19-r2": "operation-vs-flush/stop races under the cooperative scheduler (caught before only by one random trace)",
+    "C02-r3": "non-ASCII identities / requested extra keys; quick sample stratified so that every identity is always forwarded as itself",
+    "C03-r3": "endpoints listed more than once with conflicting disabled flags; proxyh waits no longer encode the expected flags",
+    "C07-r3": "burst-only limit changes; answers judged against the CONFIGURED limits instead of the server's own record",
+    "C08-r3": "limit changes in the token-bucket part, incl. A -> B -> A with the burst left alone",
+    "C09-r3": "the configured global limit changes (also during an outage) in GlobalCount.tla / harness / judge",
+    "C11-r3": "token bucket classes differing only in burst / only in rate",
+    "C12-r3": "HTTP part: real webhooks + real cluster manager (ClientFor) + controller, a server name moving between live clusters",
+    "C13-r3": "sparse / unordered leader lists in the gateway-side shard probe",
 }
 rows = []
 for d in sorted(glob.glob("/verif/seeded/C*")):
